@@ -1,5 +1,5 @@
 """Property -> rules mapping, floors, level texts."""
-from .rules import termination, streams, decoders, layouts, flow
+from .rules import termination, streams, decoders, layouts, flow, names
 
 RULES = {}
 FLOORS = {}
@@ -38,6 +38,9 @@ reg("L8r", flow.rule_L8r, 30)
 reg("L8a", flow.rule_L8a, 8)
 reg("L8c", flow.rule_L8c, 10)
 
+for _f, _n in (("N1", 10), ("N2", 10), ("N3", 10), ("N4", 10), ("N5", 8), ("N6", 6), ("N7", 6), ("N8", 8)):
+    reg(_f, getattr(names, "rule_" + _f), _n)
+
 COMMON_ASSUMPTIONS = [
     "static analysis of /repo's source only: the package is never imported or executed by the check",
     "the `construct` and `numpy` libraries behave as documented (Pointer seeks absolutely, Prefixed back-patches its length, Struct parses fields in order)",
@@ -54,11 +57,11 @@ PROPS = {
     "C03": _p(["L8c", "T1"], "tmp"),
     "C04": _p(["L1w", "L2", "L7"], "tmp"),
     "C05": _p(["T2"], "tmp"),
-    "C06": _p(["T1"], "tmp"),
+    "C06": _p(["N1", "N2", "N3", "N4", "N5", "N7", "T1"], "tmp"),
     "C07": _p(["S1", "S2", "S3", "T1", "D1", "D2", "D3", "D4"], "tmp"),
     "C08": _p(["S5", "S7", "S3", "S4", "S6"], "tmp"),
     "C09": _p(["S8", "S3", "L1c", "L2"], "tmp"),
-    "C10": _p(["T1"], "tmp"),
+    "C10": _p(["N6", "N1", "N2", "N4", "N7", "N8", "T1"], "tmp"),
     "C11": _p(["S6", "S5", "S8"], "tmp"),
     "C12": _p(["T2"], "tmp"),
     "C13": _p(["T1", "T2", "T3", "T4"], "tmp"),
